@@ -247,11 +247,16 @@ func buildTx(en *env, d string) interfaces.Transaction {
 		if p[2] == "v2" {
 			vt = outputpayload.DposV2
 		}
+		lock := uint32(2000000) // dvote:…:<nonce>[:<lockTime>]
+		if len(p) > 5 {
+			l, _ := strconv.Atoi(p[5])
+			lock = uint32(l)
+		}
 		var vi []payload.VotesWithLockTime
 		for _, c := range strings.Split(p[3], ",") {
 			kv := strings.Split(c, "=")
-			a, _ := strconv.Atoi(kv[1])
-			vi = append(vi, payload.VotesWithLockTime{Candidate: ownerKeys[idx(kv[0])], Votes: common.Fixed64(a), LockTime: 2000000})
+			a, _ := strconv.ParseInt(kv[1], 10, 64)
+			vi = append(vi, payload.VotesWithLockTime{Candidate: ownerKeys[idx(kv[0])], Votes: common.Fixed64(a), LockTime: lock})
 		}
 		n, _ := strconv.Atoi(p[4])
 		return functions.CreateTransaction(common2.TxVersion09, common2.Voting, payload.VoteVersion,
@@ -986,7 +991,13 @@ func gen(g *hx.Gen) {
 					}
 				}
 				if len(cs) > 0 {
-					txs = append(txs, fmt.Sprintf("dvote:%d:%s:%s:%d", r.Intn(3), []string{"d", "v2"}[r.Intn(2)], strings.Join(cs, ","), nonce()))
+					if r.Chance(35) {
+						// exactly the effective-votes threshold, locked for exactly 7200 blocks (weight log10(10) = 1)
+						j := strings.Split(cs[0], "=")[0]
+						txs = append(txs, fmt.Sprintf("dvote:%d:v2:%s=8000000000000:%d:%d", r.Intn(3), j, nonce(), h+7200))
+					} else {
+						txs = append(txs, fmt.Sprintf("dvote:%d:%s:%s:%d", r.Intn(3), []string{"d", "v2"}[r.Intn(2)], strings.Join(cs, ","), nonce()))
+					}
 				}
 			}
 			if r.Chance(8) && !e.arbMode { // consensus mode switches (in Arbiters mode the revert logic needs the real chain: it can block)
